@@ -643,6 +643,8 @@ impl ClusterHandler for NocHandler {
 
         let mut updated_fab_idx = None;
 
+        let mut persist = FabricPersist::new(ctx.kv());
+
         let status = NodeOperationalCertStatusEnum::map(ctx.exchange().with_state(|state| {
             let sess = ctx.exchange().id().session(&mut state.sessions);
 
@@ -671,8 +673,18 @@ impl ClusterHandler for NocHandler {
 
             updated_fab_idx = Some(fabric.fab_idx().get());
 
+            // The label is part of the persisted fabric: store it before answering, or the
+            // acknowledged change is gone with the next restart. Same rule as for the other
+            // changes of a fabric's data (ACL, group keys, ...): while the fail-safe is armed
+            // for this fabric, `CommissioningComplete` stores it (and an expiry rolls it back).
+            if !state.failsafe.is_armed_for(fab_idx.get()) {
+                persist.store(fabric)?;
+            }
+
             Ok(())
         }))?;
+
+        persist.run()?;
 
         // UpdateFabricLabel mutates the Fabrics list
         ctx.notify_own_cluster_changed();
